@@ -11,6 +11,33 @@
 //! An optional *observer* thread runs `get_forwarded_object`'s pattern
 //! (`is_forwarded` ? `read_forwarding_pointer`) twice.
 //!
+//! An optional *neighbour* thread (1-2 tracers + neighbour) changes, concurrently with the
+//! tracers, bits of the BYTE that holds the object's forwarding bits which do NOT belong to the
+//! object's forwarding-bits field, through legal mmtk-core operations on a legitimately different
+//! field.  Sub-byte compare-exchanges work on the whole metadata byte, so they fail when such a bit
+//! changes between their internal load and the exchange: a claim protocol that does not retry (or
+//! that takes the failure value for the winner's state) copies the object twice.
+//! * forwarding bits on side (2 bits per 8 bytes, 4 objects per byte): the neighbour field is the
+//!   forwarding-bits field of an ADJACENT OBJECT of the same 32-byte group.  Another GC worker
+//!   forwards that object while ours is being forwarded (`side_forward`: real `attempt_to_forward`
+//!   + real `forward_object`, i.e. CopySpace::trace_object on the neighbouring object, leaving
+//!   FORWARDED and its own pointer), or claims and releases it (`side_claim_clear`: real
+//!   `attempt_to_forward` + real `clear_forwarding_bits`, what Immix does for a pinned / already
+//!   marked neighbouring object; the byte returns to its initial value: ABA).  Routine in every
+//!   copying GC with >= 2 workers and objects of 8..24 bytes.
+//! * forwarding bits in the header: the neighbour field is another 1-bit `HeaderMetadataSpec` of
+//!   the same header byte (bindings that pack several specs into one header byte: an in-header
+//!   unlog bit, pin bit or mark bit next to the forwarding bits).  The neighbour performs
+//!   `store_atomic(1)` (exactly what `ProcessModBuf` does to the unlog bit of a mature object in a
+//!   StickyImmix nursery GC while another worker traces that object through the opportunistic-copy
+//!   pattern; also `pin_object` by a VM pinning roots while tracing runs), then `fetch_and(0)`,
+//!   then `fetch_or(1)`: the three kinds of atomic the header spec offers (CAS loop, and/or RMW),
+//!   ending with a value different from the initial one.
+//!   In the two placements where the forwarding bits live INSIDE the forwarding-pointer word,
+//!   `forward_object` legitimately overwrites the whole word (the old copy is dead): there the
+//!   neighbour's own bit is not required to survive once the object has moved (the tracers' results
+//!   are judged all the same).
+//!
 //! All the `object_forwarding` functions are the real ones (re-exported by a hook).  `forward_object`
 //! calls `VM::VMObjectModel::copy`, which for the unit bindings `UnitVM<P>` is the harness-supplied
 //! copy: it returns a fresh address and counts the call.  The `on_after_forwarding` callback
@@ -27,15 +54,20 @@
 //! tracers return the same reference: the new copy, or the unmoved object; every pointer the
 //! observer obtained is the winner's copy; at quiescence the forwarding state is consistent
 //! (FORWARDED + pointer == the copy, decoded independently; or bits clear + marked + pointer
-//! untouched); no bit outside the fields changed.
+//! untouched); no bit outside the fields changed (with a neighbour: outside the fields and the
+//! neighbour's own field(s)); the neighbour's operations returned what they return when the
+//! neighbour runs alone and its field holds what it last wrote (side: the neighbouring object was
+//! claimed by the neighbour, copied once, ends FORWARDED + its own pointer / ends clear).
 
-use crate::baton::{self, Arming, Config, End, ExecInfo, Scenario, Verdict};
+use crate::baton::{self, Arming, Config, End, ExecInfo, Op, Scenario, Verdict};
 use crate::common::{machinery_failure, Run, Tier};
 use crate::props::c18::{self, header_loc, init_scratch, side_loc, Loc, NWINDOWS, OBJ_BASE, WINDOW};
 use crate::unitvm::{placement_name, CopyCtx, COPIES_BY_THIS_THREAD, COPY_CTX, FWD_PLACEMENTS};
 use crate::with_unit_vm;
 use mmtk::util::copy::{CopySemantics, GCWorkerCopyContext};
+use mmtk::util::metadata::header_metadata::HeaderMetadataSpec;
 use mmtk::util::metadata::MetadataSpec;
+use mmtk::util::verif::rt::Kind;
 use mmtk::util::verif::c17 as fwd;
 use mmtk::util::{Address, ObjectReference};
 use mmtk::vm::*;
@@ -80,6 +112,54 @@ impl Pattern {
     }
 }
 
+/// What the neighbour thread does (see the module documentation).
+#[derive(Clone, Copy, Debug, PartialEq, Eq)]
+pub enum Nb {
+    /// In-header forwarding bits: a 1-bit header field at this bit offset, in the same byte:
+    /// `store_atomic(1)`, `fetch_and(0)`, `fetch_or(1)`.
+    HeaderBit { off: isize },
+    /// The same field, one single `fetch_or(1)` (one scheduling point: small enough for ALL
+    /// interleavings with 2 tracers).
+    HeaderBitOr { off: isize },
+    /// Side forwarding bits: the object in slot `slot` of the same 32-byte group is forwarded
+    /// (`attempt_to_forward`, `forward_object`).
+    SideForward { slot: usize },
+    /// Side forwarding bits: the object in slot `slot` of the same 32-byte group is claimed and
+    /// released (`attempt_to_forward`, `clear_forwarding_bits`).
+    SideClaimClear { slot: usize },
+}
+
+impl Nb {
+    fn name(&self) -> String {
+        match self {
+            Nb::HeaderBit { off } => format!("header-bit{}", off),
+            Nb::HeaderBitOr { off } => format!("header-bit{}-fetch_or-only", off),
+            Nb::SideForward { slot } => format!("side-forward-slot{}", slot),
+            Nb::SideClaimClear { slot } => format!("side-claim-clear-slot{}", slot),
+        }
+    }
+    fn to_json(self) -> Value {
+        match self {
+            Nb::HeaderBit { off } => json!({"kind": "header_bit", "bit_offset": off}),
+            Nb::HeaderBitOr { off } => json!({"kind": "header_bit_fetch_or_only", "bit_offset": off}),
+            Nb::SideForward { slot } => json!({"kind": "side_forward", "slot": slot}),
+            Nb::SideClaimClear { slot } => json!({"kind": "side_claim_clear", "slot": slot}),
+        }
+    }
+    fn from_json(v: &Value) -> Option<Nb> {
+        if v.is_null() {
+            return None;
+        }
+        Some(match v["kind"].as_str().unwrap_or("") {
+            "header_bit" => Nb::HeaderBit { off: v["bit_offset"].as_i64().unwrap() as isize },
+            "header_bit_fetch_or_only" => Nb::HeaderBitOr { off: v["bit_offset"].as_i64().unwrap() as isize },
+            "side_forward" => Nb::SideForward { slot: v["slot"].as_u64().unwrap() as usize },
+            "side_claim_clear" => Nb::SideClaimClear { slot: v["slot"].as_u64().unwrap() as usize },
+            other => machinery_failure(&format!("C17: unknown neighbour kind {}", other)),
+        })
+    }
+}
+
 #[derive(Clone, Debug)]
 pub struct Params {
     pub pattern: Pattern,
@@ -88,6 +168,8 @@ pub struct Params {
     pub observer: bool,
     /// object index inside its 32-byte group (selects the field inside the side forwarding-bits byte)
     pub slot: usize,
+    /// the neighbour thread (the last thread), if any
+    pub neighbour: Option<Nb>,
     pub bound: Option<u32>,
 }
 
@@ -101,8 +183,34 @@ fn rel(a: usize) -> String {
     }
 }
 
+/// `rel` applied to every hexadecimal address inside a text (panic messages of mmtk-core name the
+/// object by its absolute address).
+fn rel_text(text: &str) -> String {
+    let b = text.as_bytes();
+    let mut out = String::new();
+    let mut i = 0;
+    while i < b.len() {
+        if b[i] == b'0' && i + 1 < b.len() && b[i + 1] == b'x' {
+            let mut j = i + 2;
+            while j < b.len() && b[j].is_ascii_hexdigit() {
+                j += 1;
+            }
+            match usize::from_str_radix(&text[i + 2..j], 16) {
+                Ok(a) if j > i + 2 => out.push_str(&rel(a)),
+                _ => out.push_str(&text[i..j]),
+            }
+            i = j;
+        } else {
+            let ch = text[i..].chars().next().unwrap();
+            out.push(ch);
+            i += ch.len_utf8();
+        }
+    }
+    out
+}
+
 fn params_json(p: &Params) -> Value {
-    json!({"pattern": p.pattern.name(), "placement": p.placement, "placement_name": placement_name(p.placement), "tracers": p.tracers, "observer": p.observer, "slot": p.slot, "bound": p.bound})
+    json!({"pattern": p.pattern.name(), "placement": p.placement, "placement_name": placement_name(p.placement), "tracers": p.tracers, "observer": p.observer, "slot": p.slot, "neighbour": p.neighbour.map(|n| n.to_json()), "bound": p.bound})
 }
 
 fn params_from_json(v: &Value) -> Params {
@@ -112,6 +220,7 @@ fn params_from_json(v: &Value) -> Params {
         tracers: v["tracers"].as_u64().unwrap() as usize,
         observer: v["observer"].as_bool().unwrap(),
         slot: v["slot"].as_u64().unwrap() as usize,
+        neighbour: Nb::from_json(&v["neighbour"]),
         bound: v["bound"].as_u64().map(|b| b as u32),
     }
 }
@@ -188,10 +297,28 @@ fn layout(p: usize, object: ObjectReference) -> Layout {
     })
 }
 
+/// The neighbour thread's field(s), located without the code under test.
+struct NbLayout {
+    kind: Nb,
+    /// the neighbour's field inside the byte that holds the object's forwarding bits
+    field: Loc,
+    /// header kind: the spec the neighbour operates on
+    hdr_spec: Option<HeaderMetadataSpec>,
+    /// side kinds: the neighbouring object, the word holding its forwarding pointer, its copy
+    object: Option<ObjectReference>,
+    ptr_word: Address,
+    new_addr: usize,
+    copy: CopyCtx,
+}
+
 pub struct Sc {
     p: Params,
     object: ObjectReference,
     lay: Layout,
+    nb: Option<NbLayout>,
+    /// neighbour: header kind = [1, fetch_and's result, fetch_or's result];
+    /// side kinds = [1, attempt_to_forward's result, returned reference]; -1 = not reached
+    nb_ret: [AtomicI64; 3],
     new_addr: usize,
     copy: CopyCtx,
     /// per tracer: returned reference (0 = none)
@@ -213,18 +340,61 @@ impl Sc {
         let object = ObjectReference::from_raw_address(unsafe { Address::from_usize(wbase + 0x8040 + 8 * p.slot) }).unwrap();
         let lay = layout(p.placement, object);
         let new_addr = wbase + 0x4000;
+        assert!(!(p.observer && p.neighbour.is_some()), "C17: observer and neighbour are not combined");
+        let nb = p.neighbour.map(|kind| {
+            let side_bits = matches!(p.placement, 104 | 106);
+            let (field, hdr_spec, nobj, nptr) = match kind {
+                Nb::HeaderBit { off } | Nb::HeaderBitOr { off } => {
+                    if side_bits {
+                        machinery_failure("C17: header neighbour on a side placement");
+                    }
+                    let spec = HeaderMetadataSpec { bit_offset: off, num_of_bits: 1 };
+                    (header_loc(&spec, object.to_raw_address()), Some(spec), None, lay.ptr_word)
+                }
+                Nb::SideForward { slot } | Nb::SideClaimClear { slot } => {
+                    if !side_bits || slot >= 4 || slot == p.slot {
+                        machinery_failure("C17: side neighbour needs side forwarding bits and another slot of the group");
+                    }
+                    let nobj = ObjectReference::from_raw_address(unsafe { Address::from_usize(wbase + 0x8040 + 8 * slot) }).unwrap();
+                    let nlay = layout(p.placement, nobj);
+                    (nlay.bits, None, Some(nobj), nlay.ptr_word)
+                }
+            };
+            // a different field of the same byte, disjoint from everything the tracers own
+            if field.byte != lay.bits.byte || field.mask() & lay.bits.mask() != 0 {
+                machinery_failure(&format!("C17: neighbour field {:?} is not another field of the forwarding-bits byte {:?}", field, lay.bits));
+            }
+            if field.byte == lay.mark.byte && field.mask() & lay.mark.mask() != 0 {
+                machinery_failure("C17: neighbour field overlaps the mark bit");
+            }
+            if nobj.is_none() && lay.ptr_in_header && field.byte >= lay.ptr_word && field.byte < lay.ptr_word + 8usize {
+                let k = field.byte - lay.ptr_word;
+                if ((POINTER_MASK >> (8 * k)) & 0xff) as u8 & field.mask() != 0 {
+                    machinery_failure("C17: neighbour field overlaps the forwarding-pointer field");
+                }
+            }
+            NbLayout { kind, field, hdr_spec, object: nobj, ptr_word: nptr, new_addr: wbase + 0x5000, copy: CopyCtx { next: AtomicUsize::new(0), calls: AtomicUsize::new(0) } }
+        });
         // background: a pattern in every watched byte; the fields are then given their initial values
+        // (with a neighbour the regions are wider: they cover the header / side pointer word of every
+        // object of the 32-byte group)
         let mut watch: Vec<(Address, Vec<u8>)> = vec![];
-        let hdr = object.to_raw_address() - 16usize;
-        watch.push((hdr, vec![0xA5; 48]));
-        if !(lay.bits.byte >= hdr && lay.bits.byte < hdr + 48usize) {
+        let (before, hdr_len, side_before, side_len) = if nb.is_some() { (32usize, 80usize, 32usize, 72usize) } else { (16, 48, 8, 24) };
+        let hdr = object.to_raw_address() - before;
+        watch.push((hdr, vec![0xA5; hdr_len]));
+        if !(lay.bits.byte >= hdr && lay.bits.byte < hdr + hdr_len) {
             watch.push((lay.bits.byte - 8usize, vec![0x5A; 24]));
         }
         if !lay.ptr_in_header {
-            watch.push((lay.ptr_word - 8usize, vec![0xC3; 24]));
+            watch.push((lay.ptr_word - side_before, vec![0xC3; side_len]));
         }
-        if !(lay.mark.byte >= hdr && lay.mark.byte < hdr + 48usize) {
+        if !(lay.mark.byte >= hdr && lay.mark.byte < hdr + hdr_len) {
             watch.push((lay.mark.byte - 8usize, vec![0x3C; 24]));
+        }
+        if let Some(n) = &nb {
+            if n.object.is_some() && !watch.iter().any(|(a, b)| n.ptr_word >= *a && n.ptr_word + 8usize <= *a + b.len()) {
+                machinery_failure("C17: the neighbouring object's forwarding-pointer word is not watched");
+            }
         }
         for i in 0..watch.len() {
             for j in i + 1..watch.len() {
@@ -234,7 +404,7 @@ impl Sc {
                 }
             }
         }
-        Sc { p, object, lay, new_addr, copy: CopyCtx { next: AtomicUsize::new(0), calls: AtomicUsize::new(0) }, ret: Default::default(), copied: Default::default(), marked: Default::default(), obs: Default::default(), watch }
+        Sc { p, object, lay, nb, nb_ret: Default::default(), new_addr, copy: CopyCtx { next: AtomicUsize::new(0), calls: AtomicUsize::new(0) }, ret: Default::default(), copied: Default::default(), marked: Default::default(), obs: Default::default(), watch }
     }
 
     fn read_word(a: Address) -> usize {
@@ -276,19 +446,166 @@ impl Sc {
             };
             m |= ((field >> (8 * k)) & 0xff) as u8;
         }
+        if let Some(n) = &self.nb {
+            // exactly the neighbour's own bits: its field in the forwarding-bits byte and, if it
+            // forwards the neighbouring object, that object's forwarding-pointer field
+            if addr == n.field.byte {
+                m |= n.field.mask();
+            }
+            if matches!(n.kind, Nb::SideForward { .. }) && addr >= n.ptr_word && addr < n.ptr_word + 8usize {
+                let k = addr - n.ptr_word;
+                let field = if self.lay.ptr_in_header { POINTER_MASK } else { usize::MAX };
+                m |= ((field >> (8 * k)) & 0xff) as u8;
+            }
+        }
         m
+    }
+    /// The neighbour's pointer field (side kinds).
+    fn nb_pointer_field(&self, n: &NbLayout) -> usize {
+        let w = Self::read_word(n.ptr_word);
+        if self.lay.ptr_in_header {
+            w & POINTER_MASK
+        } else {
+            w
+        }
+    }
+    fn nb_tid(&self) -> Option<usize> {
+        self.nb.as_ref().map(|_| self.p.tracers + self.p.observer as usize)
+    }
+    /// A write-like atomic of the neighbour on the forwarding-bits byte fell between a tracer's
+    /// access to that byte and the same tracer's following compare-exchange on it (the collision
+    /// the neighbour scenarios exist for: that compare-exchange fails although nobody touched the
+    /// object's own bits, or succeeds on a byte the neighbour has restored).
+    fn neighbour_hit(&self, info: &ExecInfo) -> bool {
+        let nbt = match self.nb_tid() {
+            Some(t) => t,
+            None => return false,
+        };
+        let byte = self.lay.bits.byte.as_usize();
+        let mut accessed = [false; 4];
+        let mut dirty = [false; 4];
+        for s in &info.steps {
+            if let Op::Atomic { kind, addr } = s.op {
+                if addr != byte {
+                    continue;
+                }
+                let t = s.tid as usize;
+                if t == nbt {
+                    if kind.is_write() {
+                        dirty = [true; 4];
+                    }
+                } else if t < self.p.tracers {
+                    if kind == Kind::AtomicCas && accessed[t] && dirty[t] {
+                        return true;
+                    }
+                    accessed[t] = true;
+                    dirty[t] = false;
+                }
+            }
+        }
+        false
+    }
+    fn neighbour_body(&self, n: &NbLayout) {
+        self.nb_ret[0].store(1, SeqCst);
+        match n.kind {
+            Nb::HeaderBit { .. } => {
+                let spec = n.hdr_spec.unwrap();
+                let h = self.object.to_raw_address();
+                spec.store_atomic::<u8>(h, 1, None, SeqCst);
+                self.nb_ret[1].store(spec.fetch_and::<u8>(h, 0, SeqCst) as i64, SeqCst);
+                self.nb_ret[2].store(spec.fetch_or::<u8>(h, 1, SeqCst) as i64, SeqCst);
+            }
+            Nb::HeaderBitOr { .. } => {
+                let spec = n.hdr_spec.unwrap();
+                self.nb_ret[1].store(1, SeqCst);
+                self.nb_ret[2].store(spec.fetch_or::<u8>(self.object.to_raw_address(), 1, SeqCst) as i64, SeqCst);
+            }
+            Nb::SideForward { .. } => {
+                let o = n.object.unwrap();
+                COPY_CTX.with(|c| c.set(&n.copy as *const CopyCtx));
+                with_unit_vm!(self.p.placement, VM, {
+                    let status = fwd::attempt_to_forward::<VM>(o);
+                    self.nb_ret[1].store(status as i64, SeqCst);
+                    // nobody else touches the neighbouring object: anything but "not triggered yet"
+                    // is reported by the oracle (spinning on it would never end)
+                    if !fwd::state_is_forwarded_or_being_forwarded(status) {
+                        let mut ctx = GCWorkerCopyContext::<VM>::new_non_copy();
+                        let r = fwd::forward_object::<VM>(o, CopySemantics::DefaultCopy, &mut ctx, |_new_object| {});
+                        self.nb_ret[2].store(r.to_raw_address().as_usize() as i64, SeqCst);
+                    }
+                });
+                COPY_CTX.with(|c| c.set(std::ptr::null()));
+            }
+            Nb::SideClaimClear { .. } => {
+                let o = n.object.unwrap();
+                with_unit_vm!(self.p.placement, VM, {
+                    let status = fwd::attempt_to_forward::<VM>(o);
+                    self.nb_ret[1].store(status as i64, SeqCst);
+                    if !fwd::state_is_forwarded_or_being_forwarded(status) {
+                        fwd::clear_forwarding_bits::<VM>(o);
+                        self.nb_ret[2].store(o.to_raw_address().as_usize() as i64, SeqCst);
+                    }
+                });
+            }
+        }
+    }
+    /// Oracle on the neighbour: `(clause, message)` if its operations did not behave as when it runs
+    /// alone or its last write did not survive.
+    fn check_neighbour(&self, n: &NbLayout) -> Option<(&'static str, String)> {
+        if self.lay.shared && self.p.pattern.moves() {
+            // forward_object has overwritten the whole pointer word, by design
+            return None;
+        }
+        let r: Vec<i64> = self.nb_ret.iter().map(|x| x.load(SeqCst)).collect();
+        let fv = n.field.get();
+        match n.kind {
+            Nb::HeaderBit { off } | Nb::HeaderBitOr { off } => {
+                if r != [1, 1, 0] {
+                    Some(("neighbour-return-value", format!("the neighbour's fetch_and(0) / fetch_or(1) on header bit {} returned {:?}; alone they return [1, 0] (nobody else writes that bit; with the fetch_or-only neighbour the first number is a constant)", off, &r[1..])))
+                } else if fv != 1 {
+                    Some(("neighbour-lost-write", format!("header bit {} holds {} but its owner last wrote 1 (fetch_or)", off, fv)))
+                } else {
+                    None
+                }
+            }
+            Nb::SideForward { slot } => {
+                let calls = n.copy.calls.load(SeqCst);
+                let ptr = self.nb_pointer_field(n);
+                if r[1] != 0 {
+                    Some(("neighbour-return-value", format!("attempt_to_forward on the neighbouring object (slot {}) returned {:#04b} although no other thread touches that object", slot, r[1])))
+                } else if calls != 1 || r[2] != n.new_addr as i64 {
+                    Some(("neighbour-return-value", format!("the neighbouring object (slot {}) was copied {} times and forward_object returned {}, expected once and {}", slot, calls, rel(r[2] as usize), rel(n.new_addr))))
+                } else if fv != FORWARDED || ptr != n.new_addr {
+                    Some(("neighbour-lost-write", format!("the neighbouring object (slot {}) ends with forwarding bits {:#04b} and pointer field {}; its forwarder last wrote 0b11 and {}", slot, fv, rel(ptr), rel(n.new_addr))))
+                } else {
+                    None
+                }
+            }
+            Nb::SideClaimClear { slot } => {
+                if r[1] != 0 {
+                    Some(("neighbour-return-value", format!("attempt_to_forward on the neighbouring object (slot {}) returned {:#04b} although no other thread touches that object", slot, r[1])))
+                } else if r[2] < 0 {
+                    Some(("neighbour-return-value", "the neighbour did not finish".to_string()))
+                } else if fv != 0 {
+                    Some(("neighbour-lost-write", format!("the neighbouring object (slot {}) ends with forwarding bits {:#04b}; its owner last cleared them", slot, fv)))
+                } else {
+                    None
+                }
+            }
+        }
     }
 }
 
 impl Scenario for Sc {
     fn name(&self) -> String {
-        format!("C17/{}/{}/tracers={}{}/slot{}", self.p.pattern.name(), placement_name(self.p.placement), self.p.tracers, if self.p.observer { "+observer" } else { "" }, self.p.slot)
+        let nb = self.p.neighbour.map(|n| format!("+neighbour:{}", n.name())).unwrap_or_default();
+        format!("C17/{}/{}/tracers={}{}{}/slot{}", self.p.pattern.name(), placement_name(self.p.placement), self.p.tracers, if self.p.observer { "+observer" } else { "" }, nb, self.p.slot)
     }
     fn params(&self) -> Value {
         params_json(&self.p)
     }
     fn threads(&self) -> usize {
-        self.p.tracers + self.p.observer as usize
+        self.p.tracers + self.p.observer as usize + self.p.neighbour.is_some() as usize
     }
     fn setup(&self, arming: &mut Arming) {
         for (a, bytes) in &self.watch {
@@ -306,6 +623,14 @@ impl Scenario for Sc {
         }
         self.lay.bits.set(0);
         self.lay.mark.set(self.initial_mark());
+        if let Some(n) = &self.nb {
+            n.field.set(0);
+            n.copy.next.store(n.new_addr, SeqCst);
+            n.copy.calls.store(0, SeqCst);
+        }
+        for r in &self.nb_ret {
+            r.store(-1, SeqCst);
+        }
         self.copy.next.store(self.new_addr, SeqCst);
         self.copy.calls.store(0, SeqCst);
         for i in 0..4 {
@@ -331,6 +656,8 @@ impl Scenario for Sc {
             self.copied[tid].store(COPIES_BY_THIS_THREAD.with(|c| c.get()) as i64, SeqCst);
             self.marked[tid].store(marked as i64, SeqCst);
             self.ret[tid].store(r.to_raw_address().as_usize(), SeqCst);
+        } else if Some(tid) == self.nb_tid() {
+            self.neighbour_body(self.nb.as_ref().unwrap());
         } else {
             for k in 0..2 {
                 let v = with_unit_vm!(self.p.placement, VM, observe::<VM>(o));
@@ -357,7 +684,12 @@ impl Scenario for Sc {
             nontrivial |= info.interleaved_on(a.as_usize(), a.as_usize() + b.len(), &tracer_ids);
         }
         let _ = lo;
-        let outcome = format!("{}:winner={:?}:copies={}:obs={:?}", info.end.name(), winner, copies, obs.iter().map(|o| match *o { 0 => "-", 1 => "none", _ => "ptr" }).collect::<Vec<_>>());
+        let mut outcome = format!("{}:winner={:?}:copies={}:obs={:?}", info.end.name(), winner, copies, obs.iter().map(|o| match *o { 0 => "-", 1 => "none", _ => "ptr" }).collect::<Vec<_>>());
+        if self.nb.is_some() {
+            // neighbour scenarios: non-trivial = the neighbour's write hit a tracer's load..CAS window
+            nontrivial = self.neighbour_hit(info);
+            outcome.push_str(if nontrivial { ":nb=hit" } else { ":nb=miss" });
+        }
         let want_ret = if self.p.pattern.moves() { self.new_addr } else { obj };
         let want_copies = if self.p.pattern.moves() { 1 } else { 0 };
         let mut violation = None;
@@ -369,7 +701,7 @@ impl Scenario for Sc {
             };
             violation = Some((sig(clause), format!("execution ended with {:?}", info.end)));
         } else if let Some((t, m)) = info.panics.iter().enumerate().find_map(|(t, p)| p.as_ref().map(|m| (t, m.clone()))) {
-            violation = Some((sig("panic"), format!("thread {} panicked: {}", t, m)));
+            violation = Some((sig("panic"), format!("thread {} panicked: {}", t, rel_text(&m))));
         } else if copies != want_copies {
             violation = Some((sig("copy-count"), format!("the object was copied {} times (by tracer: {:?}), expected {}", copies, copied, want_copies)));
         } else if rets.iter().any(|r| *r != rets[0]) {
@@ -399,12 +731,17 @@ impl Scenario for Sc {
                 violation = Some((sig("final-state"), format!("after declining: forwarding bits {:#04b} (expected 0), mark {} (expected 1), pointer field {:#x} (expected the untouched stale value {:#x})", bits, mark, ptr, STALE)));
             }
             if violation.is_none() {
+                if let Some(n) = &self.nb {
+                    violation = self.check_neighbour(n).map(|(clause, msg)| (sig(clause), msg));
+                }
+            }
+            if violation.is_none() {
                 'outer: for (a, bytes) in &self.watch {
                     for (k, bg) in bytes.iter().enumerate() {
                         let addr = *a + k;
                         let b = unsafe { std::ptr::read_volatile(addr.to_ptr::<u8>()) };
                         if (b ^ bg) & !self.expected_changed_mask(addr) != 0 {
-                            violation = Some((sig("stray-write"), format!("byte {} of watched region {} holds {:#04x}, background {:#04x}: bits outside the forwarding / mark fields changed", k, self.watch.iter().position(|w| w.0 == *a).unwrap_or(0), b, bg)));
+                            violation = Some((sig("stray-write"), format!("byte {} of watched region {} holds {:#04x}, background {:#04x}: bits outside the forwarding / mark fields (and the neighbour's own field) changed", k, self.watch.iter().position(|w| w.0 == *a).unwrap_or(0), b, bg)));
                             break 'outer;
                         }
                     }
@@ -414,10 +751,16 @@ impl Scenario for Sc {
         Verdict { outcome, violation, nontrivial }
     }
     fn min_outcomes(&self) -> usize {
-        match self.p.pattern {
+        let base = match self.p.pattern {
             // every tracer must be seen winning
             Pattern::Copy | Pattern::ImmixMove | Pattern::ImmixDecline => self.p.tracers,
             Pattern::ImmixPremarked => 1,
+        };
+        // with a neighbour: its write must be seen both hitting and missing a tracer's window
+        if self.nb.is_some() {
+            base.max(2)
+        } else {
+            base
         }
     }
 }
@@ -443,10 +786,10 @@ fn configs(tier: Tier) -> Vec<Params> {
                     (_, true, false) => Some(5),
                     (_, false, _) => Some(4),
                 };
-                v.push(Params { pattern, placement, tracers: 2, observer: false, slot, bound: b2 });
+                v.push(Params { pattern, placement, tracers: 2, observer: false, slot, neighbour: None, bound: b2 });
                 if slot == 0 || thorough {
                     // 2 tracers + observer
-                    v.push(Params { pattern, placement, tracers: 2, observer: true, slot, bound: Some(if thorough { 4 } else { 2 }) });
+                    v.push(Params { pattern, placement, tracers: 2, observer: true, slot, neighbour: None, bound: Some(if thorough { 4 } else { 2 }) });
                     // 3 tracers
                     let b3 = match (thorough, deep) {
                         (true, true) if matches!(pattern, Pattern::Copy | Pattern::ImmixDecline) => 3,
@@ -454,11 +797,88 @@ fn configs(tier: Tier) -> Vec<Params> {
                         (false, true) if matches!(pattern, Pattern::Copy | Pattern::ImmixDecline) => 2,
                         (false, _) => 1,
                     };
-                    v.push(Params { pattern, placement, tracers: 3, observer: false, slot, bound: Some(b3) });
+                    v.push(Params { pattern, placement, tracers: 3, observer: false, slot, neighbour: None, bound: Some(b3) });
                 }
             }
         }
     }
+    v.extend(neighbour_configs(tier));
+    v
+}
+
+/// The neighbour fields of a placement: (slot of the object, neighbour).
+fn neighbours_of(placement: usize, thorough: bool) -> Vec<(usize, Nb)> {
+    // in-header: the 1-bit fields next to the forwarding bits and (thorough) at the other end of the
+    // byte.  With the bits at shift 0 of the pointer word, bit 2 is the only bit of the byte that
+    // belongs neither to the forwarding bits nor to the pointer field.
+    let hdr = |offs: &[isize]| -> Vec<(usize, Nb)> { offs.iter().take(if thorough { 2 } else { 1 }).map(|o| (0, Nb::HeaderBit { off: *o })).collect() };
+    match placement {
+        100 => hdr(&[2]),
+        101 => hdr(&[58, 63]),
+        102 | 105 => hdr(&[66, 71]),
+        103 => hdr(&[-6, -1]),
+        // side: the adjacent objects of the 32-byte group (cyclic), both ends of the byte
+        _ => {
+            if thorough {
+                let mut v = vec![];
+                for slot in 0..4 {
+                    v.push((slot, Nb::SideForward { slot: (slot + 1) % 4 }));
+                    v.push((slot, Nb::SideClaimClear { slot: (slot + 3) % 4 }));
+                }
+                v
+            } else {
+                vec![(0, Nb::SideForward { slot: 1 }), (3, Nb::SideClaimClear { slot: 2 })]
+            }
+        }
+    }
+}
+
+fn neighbour_configs(tier: Tier) -> Vec<Params> {
+    let thorough = tier == Tier::Thorough;
+    let mut v = vec![];
+    // 2 tracers + a neighbour that performs ONE atomic read-modify-write (`fetch_or(1)`) on the
+    // neighbouring header bit, CopySpace pattern: EVERY interleaving where the tree is small enough
+    // (bits inside the pointer word: 3.8 * 10^3 executions; bits in header + pointer on side:
+    // 3.7 * 10^5, thorough only); with the bits in a separate header word / byte and the pointer in
+    // the header the tree has 1.7 * 10^6 executions (measured once): preemption bound 6 there.
+    let once: &[(usize, isize, Option<u32>)] = if thorough { &[(105, 66, None), (102, 66, Some(6)), (103, -6, Some(6)), (100, 2, None), (101, 58, None)] } else { &[(100, 2, None)] };
+    for (placement, off, bound) in once {
+        v.push(Params { pattern: Pattern::Copy, placement: *placement, tracers: 2, observer: false, slot: 0, neighbour: Some(Nb::HeaderBitOr { off: *off }), bound: *bound });
+    }
+    for pattern in [Pattern::Copy, Pattern::ImmixMove, Pattern::ImmixDecline, Pattern::ImmixPremarked] {
+        for placement in FWD_PLACEMENTS {
+            for (k, (slot, nb)) in neighbours_of(placement, thorough).into_iter().enumerate() {
+                // 1 tracer + neighbour: every interleaving
+                v.push(Params { pattern, placement, tracers: 1, observer: false, slot, neighbour: Some(nb), bound: None });
+                // 2 tracers + neighbour: preemption bound 2 (quick) / 3 (thorough; 4 with the first
+                // neighbour of one placement of each kind: bits in the pointer word, separate header
+                // word, bits on side).  The whole tree is not affordable: even the smallest
+                // configuration (CopySpace pattern, bits in the pointer word: 1.0 * 10^4 executions at
+                // bound 4, growing about 4x per bound) did not finish within minutes.
+                let deep = matches!(placement, 100 | 102 | 104) && k == 0;
+                let b2 = match (thorough, deep) {
+                    (false, _) => 2,
+                    (true, false) => 3,
+                    (true, true) => 4,
+                };
+                v.push(Params { pattern, placement, tracers: 2, observer: false, slot, neighbour: Some(nb), bound: Some(b2) });
+            }
+        }
+    }
+    // the longest jobs first (scenarios are handed to the exploration jobs in list order; the order
+    // has no other effect): rough weights from the measured execution counts
+    v.sort_by_key(|p| {
+        let side_fwd = matches!(p.neighbour, Some(Nb::SideForward { .. }));
+        let w = match (p.tracers, p.bound, p.placement) {
+            (2, Some(4), 104) => 10,
+            (2, None, 105) => 9,
+            (2, Some(4), 102) | (2, Some(6), _) => 6,
+            (1, _, 104) if side_fwd => 5,
+            (1, _, 106) if side_fwd => 4,
+            _ => 0,
+        };
+        std::cmp::Reverse(w)
+    });
     v
 }
 
@@ -493,12 +913,42 @@ pub fn run(run: &mut Run) {
     let mut min2 = u32::MAX;
     let mut min3 = u32::MAX;
     let mut minobs = u32::MAX;
+    let mut nb_cfgs = 0u64;
+    let mut nb_exec = 0u64;
+    let mut nb_hits = 0u64;
+    let mut nb_all1 = true;
+    let mut nb_exhaustive2 = 0u64;
+    let mut nb_min2 = u32::MAX;
+    // measured per-scenario figures of the first neighbour scenario of each (kind, tracer count)
+    let mut nb_samples: Vec<Value> = vec![];
+    let mut nb_sampled: Vec<(std::mem::Discriminant<Nb>, usize)> = vec![];
     for (p, st) in cfgs.iter().zip(stats.iter()) {
+        if let Some(nb) = &p.neighbour {
+            nb_cfgs += 1;
+            nb_exec += st.executions;
+            nb_hits += st.nontrivial;
+            let key = (std::mem::discriminant(nb), p.tracers);
+            if !nb_sampled.contains(&key) {
+                nb_sampled.push(key);
+                nb_samples.push(json!({"scenario": Sc::new(p.clone(), 0).name(), "params": params_json(p), "executions": st.executions, "executions_neighbour_write_between_a_tracers_load_and_cas": st.nontrivial, "executions_by_preemptions": st.by_preemptions, "all_interleavings": st.unbounded_complete, "outcome_classes": st.outcomes}));
+            }
+        }
         if st.violations > 0 {
             continue;
         }
         let b = if st.unbounded_complete { 99 } else { st.completed_bound.unwrap_or(0) };
-        if p.tracers == 2 && !p.observer {
+        if p.neighbour.is_some() {
+            if st.complete && st.nontrivial == 0 {
+                machinery_failure(&format!("C17: vacuous neighbour scenario {}: the neighbour's write never fell between a tracer's load and compare-exchange", Sc::new(p.clone(), 0).name()));
+            }
+            if p.tracers == 1 {
+                nb_all1 &= st.unbounded_complete;
+            } else if st.unbounded_complete {
+                nb_exhaustive2 += 1;
+            } else {
+                nb_min2 = nb_min2.min(b);
+            }
+        } else if p.tracers == 2 && !p.observer {
             if st.unbounded_complete {
                 exhaustive2 += 1;
             } else {
@@ -515,10 +965,18 @@ pub fn run(run: &mut Run) {
     run.set("configurations", cfgs.len() as u64);
     run.set("completed_preemption_bound_3_tracers", if min3 == u32::MAX { 0 } else { min3 as u64 });
     run.set("completed_preemption_bound_2_tracers_plus_observer", if minobs == u32::MAX { 99 } else { minobs as u64 });
+    run.set("neighbour_scenario_samples", nb_samples);
+    run.set("configurations_with_neighbour", nb_cfgs);
+    run.set("executions_with_neighbour", nb_exec);
+    run.set("executions_neighbour_write_between_a_tracers_load_and_cas", nb_hits);
+    run.set("all_interleavings_explored_for_1_tracer_plus_neighbour", nb_all1);
+    run.set("configurations_2_tracers_plus_neighbour_with_all_interleavings_explored", nb_exhaustive2);
+    run.set("completed_preemption_bound_other_2_tracers_plus_neighbour", if nb_min2 == u32::MAX { 99 } else { nb_min2 as u64 });
     run.set("placements_run", FWD_PLACEMENTS.iter().map(|p| placement_name(*p)).collect::<Vec<_>>());
     run.set("harness_binding_placement", verifvm_placement());
-    run.set("rule", "per (trace pattern {CopySpace::trace_object, Immix opportunistic copy: move / decline / already marked}, placement of forwarding bits and pointer {in pointer word shift 0 / 56, separate header word / byte, bits side, pointer side, both side}, 2-3 tracers, optional observer): every interleaving at the forwarding / mark metadata atomics of the object (2 tracers: all; 3 tracers and quick-tier observer runs: up to the stated preemption bound); oracle: copy ran exactly once (0 if declined), all tracers return the same reference (the copy / the unmoved object), observers only ever read the winner's pointer, nobody spins for ever, final forwarding state consistent, no stray write; non-trivial = some thread was interleaved by another between two of its own atomics on the object's metadata");
+    run.set("rule", "per (trace pattern {CopySpace::trace_object, Immix opportunistic copy: move / decline / already marked}, placement of forwarding bits and pointer {in pointer word shift 0 / 56, separate header word / byte, bits side, pointer side, both side}, 2-3 tracers, optional observer): every interleaving at the forwarding / mark metadata atomics of the object (2 tracers: all; 3 tracers and quick-tier observer runs: up to the stated preemption bound); oracle: copy ran exactly once (0 if declined), all tracers return the same reference (the copy / the unmoved object), observers only ever read the winner's pointer, nobody spins for ever, final forwarding state consistent, no stray write; non-trivial = some thread was interleaved by another between two of its own atomics on the object's metadata. Neighbour scenarios (1-2 tracers + a neighbour thread that changes OTHER bits of the byte holding the object's forwarding bits: side bits -> the neighbouring object of the 32-byte group is forwarded (attempt_to_forward + forward_object) or claimed and released (attempt_to_forward + clear_forwarding_bits); in-header bits -> store_atomic(1), fetch_and(0), fetch_or(1) on a 1-bit header field of the same byte, or one single fetch_or(1)): 1 tracer + neighbour all interleavings, 2 tracers + neighbour up to the stated bound (all interleavings for the single-fetch_or neighbour where stated); same oracle, the stray-write clause tolerating exactly the neighbour's own field(s), plus: the neighbour's calls return what they return alone and its last write survives (not required of a header bit inside the forwarding-pointer word once forward_object has overwritten that word); non-trivial there = a write-like atomic of the neighbour on the forwarding-bits byte fell between a tracer's access to that byte and the same tracer's next compare-exchange on it (every neighbour scenario must contain such executions)");
     run.assume("sequentially consistent interleavings at the instrumented atomics only (engine baton); no weak-memory effects");
+    run.assume("neighbour scenarios: the neighbour field is a 1-bit in-header field chosen by the harness in the forwarding-bits byte (bit 2 next to bits at shift 0; bits 58/63, 66/71, -6/-1 elsewhere), resp. the side forwarding bits of the adjacent object 8 bytes away (objects of 8 bytes, the minimum the side spec's granule allows); observer and neighbour are not combined");
     run.assume("seam (a) only: the object_forwarding functions under the call patterns of CopySpace::trace_object and ImmixSpace::trace_object_with_opportunistic_copy; the copy itself is a harness function returning a fresh address (VM::VMObjectModel::copy of the unit binding), the on_after_forwarding callback is empty, ImmixSpace::is_marked/attempt_mark are replaced by their metadata-level operations");
 }
 
